@@ -9,6 +9,7 @@ import (
 	"os"
 	"path/filepath"
 	"sort"
+	"strconv"
 	"strings"
 	"sync"
 	"time"
@@ -16,6 +17,7 @@ import (
 	"github.com/anishathalye/porcupine"
 	"github.com/opencontainers/go-digest"
 	ocispec "github.com/opencontainers/image-spec/specs-go/v1"
+	"oras.land/oras-go/v2/content"
 	"oras.land/oras-go/v2/content/file"
 	"oras.land/oras-go/v2/content/memory"
 	"oras.land/oras-go/v2/content/oci"
@@ -110,6 +112,9 @@ func (p *storeProp) Gen(r *Rand, tier string, idx int) any {
 	if (p.id == "C06" || p.id == "C07") && r.Chance(0.5) {
 		sp.Tasks = r.Range(2, 4)
 	}
+	if p.id == "C08" && r.Chance(0.25) {
+		sp.Tasks = r.Range(2, 4) // the layout a concurrent history leaves behind is reopened after quiescence
+	}
 	sp.AutoSave = true
 	if sp.Kind == "oci" {
 		switch p.id {
@@ -182,6 +187,8 @@ func (p *storeProp) Gen(r *Rand, tier string, idx int) any {
 			op = SOp{Op: pick(r, mutators), Node: r.Intn(nn), Ref: randRef()}
 			if op.Op == "tag" && r.Chance(0.3) {
 				op.Var = r.Range(1, 2) // same content, other descriptor annotations
+			} else if op.Op == "tag" && r.Chance(0.2) {
+				op = SOp{Op: "retag", From: randRef(), Ref: randRef()} // tag what another tag resolves to
 			}
 		} else {
 			op = SOp{Op: pick(r, readers), Node: r.Intn(nn), Ref: randRef()}
@@ -631,9 +638,9 @@ func (sr *storeRun) unindexedManifestOnDisk(snap *Snapshot) int {
 func (sr *storeRun) countOp(op SOp, got SRes, after *SModel) {
 	in := sr.info
 	switch {
-	case got.Err == "" && (op.Op == "push" || op.Op == "tag" || op.Op == "untag" || op.Op == "delete"):
+	case got.Err == "" && (op.Op == "push" || op.Op == "tag" || op.Op == "retag" || op.Op == "untag" || op.Op == "delete"):
 		in.Probes["mutation_succeeded"]++
-	case got.Err != "" && (op.Op == "push" || op.Op == "tag" || op.Op == "untag" || op.Op == "delete"):
+	case got.Err != "" && (op.Op == "push" || op.Op == "tag" || op.Op == "retag" || op.Op == "untag" || op.Op == "delete"):
 		in.Probes["mutation_refused"]++
 	}
 	if in.Probes["mutation_succeeded"] > 0 && in.Probes["mutation_refused"] > 0 {
@@ -655,6 +662,9 @@ func (sr *storeRun) countOp(op SOp, got SRes, after *SModel) {
 		if old, ok := sr.model.tags[op.Ref]; ok && old != op.Node {
 			in.Probes["tag_moved"]++
 		}
+	}
+	if op.Op == "retag" && got.Err == "" {
+		in.Probes["tag_promoted_from_resolved_descriptor"]++
 	}
 }
 
@@ -983,7 +993,7 @@ func (sr *storeRun) reopen(how string) *Verdict {
 				}
 			}
 		}
-		if how == "new" {
+		if how == "new" && sr.model != nil {
 			sr.store = re
 			sr.relearn()
 		}
@@ -1012,7 +1022,7 @@ func (sr *storeRun) concurrent() *Verdict {
 	var histMu sync.Mutex
 	var clock int64
 	tick := func() int64 { clock++; return clock }
-	var badBytes *Verdict
+	var badBytes, reopenV *Verdict
 	simos.Reset(simos.Config{Budget: diskBudget})
 	defer simos.Disable()
 	res := simrt.Run(sr.rc.NextConfig(), func() {
@@ -1021,8 +1031,38 @@ func (sr *storeRun) concurrent() *Verdict {
 			t := t
 			simrt.Go(func() {
 				defer func() { done <- struct{}{} }()
-				for _, op := range sp.Ops {
+				for oi, op := range sp.Ops {
 					if op.Task != t || op.Op == "reopen" || !sr.supported(op) || op.Op == "gc" {
+						continue
+					}
+					if op.Op == "retag" {
+						// two calls, two operations of the history: Resolve, then Tag of what it returned
+						op = SOp{Op: "resolve", Ref: op.From, Task: op.Task}
+						histMu.Lock()
+						call := tick()
+						histMu.Unlock()
+						d, err := sr.store.(content.Resolver).Resolve(ctx, op.Ref)
+						got := SRes{Err: errClass(err)}
+						if err == nil {
+							got.Desc = resolveKey(d)
+						}
+						histMu.Lock()
+						hist = append(hist, histOp{Op: op, Res: got, Call: call, Ret: tick(), ClientID: t})
+						histMu.Unlock()
+						n := g.Lookup(d)
+						if err != nil || n < 0 {
+							continue
+						}
+						v, _ := strconv.Atoi(d.Annotations["variant"])
+						top := SOp{Op: "tag", Node: n, Var: v, Ref: sp.Ops[oi].Ref, Task: op.Task}
+						histMu.Lock()
+						call = tick()
+						histMu.Unlock()
+						simos.SetBudget(diskBudget)
+						got = SRes{Err: errClass(sr.store.(content.Tagger).Tag(ctx, d, top.Ref))}
+						histMu.Lock()
+						hist = append(hist, histOp{Op: top, Res: got, Call: call, Ret: tick(), ClientID: t})
+						histMu.Unlock()
 						continue
 					}
 					histMu.Lock()
@@ -1044,6 +1084,15 @@ func (sr *storeRun) concurrent() *Verdict {
 			<-done
 			simrt.Yield("join")
 		}
+		if sp.Kind == "oci" && (sr.p.id == "C07" || sr.p.id == "C08") {
+			// quiescent now: what the concurrent history left on disk must reopen to the live store's answers
+			for _, how := range []string{"fs", "tar", "new"} {
+				if reopenV = sr.reopen(how); reopenV != nil {
+					return
+				}
+				sr.info.Probes["reopen_after_concurrent_history"]++
+			}
+		}
 	})
 	sr.rc.Done(res)
 	if ov := sr.outcome(res); ov != nil {
@@ -1051,6 +1100,9 @@ func (sr *storeRun) concurrent() *Verdict {
 	}
 	if badBytes != nil {
 		return badBytes
+	}
+	if reopenV != nil {
+		return reopenV
 	}
 	if res.Choices >= 3 {
 		sr.info.Nontrivial = true
